@@ -7,7 +7,7 @@
 From Coq Require Import List Bool Arith NArith Permutation Sorted.
 Import ListNotations.
 From DDP Require Import Det.Sorting Det.SortingProofs Det.Sites Det.SitesProofs Det.C16Model Det.C16ModelProofs
-  Det.ExprTree Det.ExprTreeProofs Det.SiteIndex Gen.Sites Det.SiteIndexProofs Det.NonVacuity.
+  Det.ExprTree Det.ExprTreeProofs Det.AliasSort Det.AliasSortProofs Det.SiteIndex Gen.Sites Det.SiteIndexProofs Det.NonVacuity.
 
 (* ---------------------------------------------------------------- sorting *)
 (* Go's small-slice insertion sort returns a sorted permutation for every strict weak order *)
@@ -49,6 +49,20 @@ Theorem C16_comparator_not_strict_weak :
   (exists p q, code_lt p q = true /\ code_lt q p = true) /\ ~ asym code_lt.
 Proof. exact (conj code_lt_not_asym code_lt_not_strict_weak). Qed.
 Print Assumptions C16_comparator_not_strict_weak.
+
+(* parser.sortAliases: the comparator is a strict weak order whose ties are the equal (tokens, generics, references)
+   triples; the result is a sorted permutation of the trie-search result and, up to 12 candidates (Go's stable insertion
+   sort), tied candidates keep their trie-search order: which of several maximal candidates is tried first is a function
+   of the (map-free) search result *)
+Theorem C16_site_sort_aliases :
+  asym alias_less /\ negtrans alias_less /\
+  (forall a b, alias_less a b = false -> alias_less b a = false -> same_rank a b = true) /\
+  forall big l, (forall l0, Permutation l0 (big l0)) ->
+    Permutation l (sort_aliases big l) /\
+    (length l <= 12 -> sorted alias_less (sort_aliases big l) /\
+       forall c, filter (same_rank c) (sort_aliases big l) = filter (same_rank c) l).
+Proof. exact (conj alias_asym (conj alias_negtrans (conj alias_incomparable sort_aliases_spec))). Qed.
+Print Assumptions C16_site_sort_aliases.
 
 (* ---------------------------------------------------------------- imported declarations *)
 Theorem C16_site_imported_decls_refuted :
